@@ -11,7 +11,7 @@ BOUNDS = {
 }
 OUTSIDE = "expression offsets are concrete per path (SortedDict hashes its keys); more than two intervals; offsets above 9"
 ASSUMPTIONS = ["sortedcontainers.SortedDict is used as is (real code); its keys are concrete", "intervaltree replaced by ModelTree for the section index (as C05)"]
-MAPOPS = ["set", "del", "pop", "popitem", "setdefault", "update", "clear", "assign"]
+MAPOPS = ["set", "del", "pop", "popitem", "setdefault", "update", "clear", "assign", "del_absent"]
 
 
 def shards(tier):
